@@ -282,6 +282,11 @@ class SimEnv:
                 status = "done"
             except simsched.Deadlock as d:
                 status = "deadlock:" + ",".join(f"{t}@{op}" for t, op in d.blocked)
+            # snapshot what the oracle looks at *before* the parked threads are released (their `finally` clauses run then)
+            self.final_logs = {k: list(v) for k, v in self.logs.items()}
+            self.final_finished = {n: t.finished for n, t in self.sched.threads.items()}
+            self.final_procs = [(p.wid, p.exitcode) for p in self.pool.procs]
+            self.final_resq = list(self.queues["resQ"].items) if "resQ" in self.queues else []
             return status, schedule, list(self.sched.log)
         finally:
             self.sched.abort()
